@@ -93,6 +93,14 @@ func main() {
 			ids = append(ids, id)
 		}
 		sort.Strings(ids)
+		if only := os.Getenv("RB_ONLY"); only != "" { // debug: restrict -all to a comma-separated list of rules
+			ids = nil
+			for _, id := range strings.Split(only, ",") {
+				if ruleTable[id] != nil {
+					ids = append(ids, id)
+				}
+			}
+		}
 		total := 0
 		for _, id := range ids {
 			res := func() (res *RuleResult) {
